@@ -357,7 +357,7 @@ def _chunk(task):
             nm, nr = rng.choice(sizes)
             ms.append(gen.random_model(rng, n_mets=rng.randint(1, nm), n_rxns=rng.randint(1, nr), with_genes=False))
     res = {"evals": 0, "sigs": {}, "fails": [], "verdicts": {}, "samples": [], "unknown": 0}
-    for m in ms:
+    for j, m in enumerate(ms):
         desc = U.describe(m)
         sig = hash(U.signature(m))
         for solver in solvers:
@@ -376,7 +376,8 @@ def _chunk(task):
             res["sigs"][(sig, solver)] = bool(nontrivial) or res["sigs"].get((sig, solver), False)
             payload_desc = desc if kind != "shipped" else {"shipped": m.id}
             for key, text in fails:
-                res["fails"].append((key, text, {"model": payload_desc, "solver": solver, "key": key}, U.size_of(desc)))
+                w = f"seed{seed}:{kind}#{idx}.{j}:{solver}:{key}"
+                res["fails"].append((key, text, {"model": payload_desc, "solver": solver, "key": key, "witness": w}, U.size_of(desc), w))
             if len(res["samples"]) < 1 and nontrivial and kind == "random":
                 res["samples"].append({"model": desc, "solver": solver, "exact": info["exact"], "value": info.get("value")})
     return res
